@@ -16,13 +16,15 @@ import (
 )
 
 type c18Params struct {
-	W       wParams `json:"w"`
-	ForMs   []int   `json:"for_ms"`
-	Twice   bool    `json:"twice,omitempty"`
-	AgainMs []int   `json:"again_ms,omitempty"` // with Twice: the second cycle begins that long after the first ended (default 200)
-	Shard   int     `json:"shard"`
-	NShards int     `json:"nshards"`
-	Sched   int     `json:"sched,omitempty"`
+	W          wParams `json:"w"`
+	ForMs      []int   `json:"for_ms"`
+	Twice      bool    `json:"twice,omitempty"`
+	AgainMs    []int   `json:"again_ms,omitempty"`     // with Twice: the second cycle begins that long after the first ended (default 200)
+	AgainForMs int     `json:"again_for_ms,omitempty"` // with Twice: length of the second pause (default: the same)
+	SlowK      []int   `json:"slow_k,omitempty"`       // additionally the k-th message the client writes is held for 1.2 s (each k in turn)
+	Shard      int     `json:"shard"`
+	NShards    int     `json:"nshards"`
+	Sched      int     `json:"sched,omitempty"`
 }
 
 func c18Oracle(w *world, r *worldResult) (violation, outcome string) {
@@ -139,9 +141,20 @@ func c18Run(j vs.Job) *vs.JobResult {
 	if len(agains) == 0 {
 		agains = []int{200}
 	}
+	type combo struct{ again, slowK int }
+	var combos []combo
+	for _, a := range agains {
+		if len(p.SlowK) == 0 {
+			combos = append(combos, combo{a, 0})
+		}
+		for _, sk := range p.SlowK {
+			combos = append(combos, combo{a, sk})
+		}
+	}
 	for step := 1; step <= nSteps; step++ {
 		for _, ms0 := range p.ForMs {
-			for _, again := range agains {
+			for _, cb := range combos {
+				again := cb.again
 				ms := ms0
 				k++
 				if k%p.NShards != p.Shard {
@@ -156,6 +169,10 @@ func c18Run(j vs.Job) *vs.JobResult {
 				if p.Twice {
 					// a second cycle 200 ms (virtual) after the first one ended
 					wp.Pauses[0].AgainAfterMs = again
+					wp.Pauses[0].AgainForMs = p.AgainForMs
+				}
+				if cb.slowK > 0 {
+					wp.MsgFaults = []wMsgFault{{"c2s", cb.slowK, "slow"}}
 				}
 				exec := func(prefix, prefixN []int, trace bool) *vs.ExecResult {
 					w, res := runWorld(wp, vs.Config{Trace: trace, ClockChoice: p.Sched > 0}, prefix, prefixN, nil)
@@ -272,6 +289,14 @@ func init() {
 				n := 8
 				for s := 0; s < n; s++ {
 					jobs = append(jobs, vs.MkJob(fmt.Sprintf("pause-twice-latency %s %d/%d", c.String(), s, n), c18Params{W: c, ForMs: []int{1500}, AgainMs: []int{50, 250, 450, 650, 850, 1100}, Twice: true, Shard: s, NShards: n}))
+				}
+			}
+			// two cycles (0.3 s, then 1.6 s one second later) while one message of the paused side is held in its
+			// write for 1.2 s (a congested link): a read of the paused side may wait across the second pause
+			for _, c := range []wParams{{Dir: "down", Tree: "one:R:35000", Timeout: 2}, {Dir: "up", Tree: "one:R:35000", Timeout: 2}} {
+				n := 8
+				for s := 0; s < n; s++ {
+					jobs = append(jobs, vs.MkJob(fmt.Sprintf("pause-twice-slow-write %s %d/%d", c.String(), s, n), c18Params{W: c, ForMs: []int{300}, AgainMs: []int{1000}, AgainForMs: 1600, SlowK: []int{2, 3, 4, 5, 6, 7, 8, 9, 10, 11, 12, 13, 14}, Twice: true, Shard: s, NShards: n}))
 				}
 			}
 			if tier == "thorough" {
